@@ -24,6 +24,8 @@ def _eval(mod, prop, repo):
     c = engine.Ctx(prop, P, "quick", repo)
     try:
         mod.check(c)
+        from . import leaves
+        leaves.check(c)
     except Exception as e:       # fail closed, like the main entry point
         c._filter = None
         c.bad("engine", "rule-not-evaluable", "", str(e)[:200])
